@@ -262,6 +262,7 @@ func checkC06(w *World, c *Check, tier string) {
 	c.Trusted = []string{"go/ssa", "fastjson GetStringBytes/StringBytes return the decoded string value", "bytes/strings Replace*/Trim* are the only rewriting primitives the package uses (checked: any other callee on the path is reported)"}
 	c.floor("C06.flow", 2)
 	c.floor("C06.kv", 4)
+	checkListDecodeCount(w, c)
 	checkEscaper(w, c, "C06.escaper")
 	pr := newProver(w)
 	tf := &textFlow{w: w, pr: pr, rewriter: map[*ssa.Function]int{}, reparser: map[*ssa.Function]int{}, memo: map[ssa.Value]bool{}, busy: map[ssa.Value]bool{}}
@@ -537,4 +538,105 @@ func checkKV(w *World, c *Check, pr *prover) {
 		}
 	}
 	_ = types.Typ
+}
+
+// checkListDecodeCount (C06.count): the gob decoder of a language-value list restores one entry per stored entry. The
+// loop over the decoded pairs must append unconditionally — the builtin append on the receiver, or a callee whose
+// every path appends and that never overwrites an element. Going through a "set" style helper (overwrite the entry
+// with the same tag, append otherwise) collapses a list that holds two values for one tag (a JSON array of plain
+// strings decodes to exactly that), so the value read back differs from the value stored.
+func checkListDecodeCount(w *World, c *Check) {
+	alwaysAppends := func(f *ssa.Function) bool {
+		if f == nil || f.Blocks == nil {
+			return false
+		}
+		var appendBlocks []*ssa.BasicBlock
+		for _, b := range f.Blocks {
+			for _, in := range b.Instrs {
+				switch x := in.(type) {
+				case *ssa.Store:
+					if _, isElem := x.Addr.(*ssa.IndexAddr); isElem {
+						return false // overwrites an element
+					}
+				case *ssa.Call:
+					if bi, ok := x.Common().Value.(*ssa.Builtin); ok && bi.Name() == "append" {
+						appendBlocks = append(appendBlocks, b)
+					}
+				}
+			}
+		}
+		if len(appendBlocks) == 0 {
+			return false
+		}
+		for _, rb := range returnBlocks(f) {
+			ok := false
+			for _, ab := range appendBlocks {
+				if ab == rb || ab.Dominates(rb) {
+					ok = true
+				}
+			}
+			if !ok {
+				return false
+			}
+		}
+		return true
+	}
+	for _, tn := range []string{"NaturalLanguageValues"} {
+		dec := w.Method(tn, "GobDecode")
+		if dec == nil {
+			continue
+		}
+		loops := loopHeaders(dec)
+		found, bad := false, ""
+		for _, b := range dec.Blocks {
+			if len(loops[b]) == 0 {
+				continue
+			}
+			for _, in := range b.Instrs {
+				call, ok := in.(*ssa.Call)
+				if !ok {
+					continue
+				}
+				if bi, ok := call.Common().Value.(*ssa.Builtin); ok && bi.Name() == "append" {
+					// unconditional within the loop body: no guard other than the loop condition itself
+					cond := false
+					for _, g := range rawGuards(b) {
+						if loops[g.block] != nil && len(loops[g.block]) > 0 && !g.block.Dominates(b) {
+							continue
+						}
+						if hs := loops[b]; hs[g.block] {
+							continue // the loop's own continuation test
+						}
+						if len(loops[g.block]) > 0 {
+							cond = true
+						}
+					}
+					if cond {
+						bad = "appends a decoded entry only under a condition (at " + w.InstrPos(call) + ")"
+					} else {
+						found = true
+					}
+					continue
+				}
+				cal := call.Common().StaticCallee()
+				if cal == nil || !w.InPkg(cal) || cal.Signature.Recv() == nil || namedOf(cal.Signature.Recv().Type()) == nil || namedOf(cal.Signature.Recv().Type()).Obj().Name() != tn {
+					continue
+				}
+				if alwaysAppends(cal) {
+					found = true
+				} else {
+					bad = fmt.Sprintf("stores a decoded entry through %s (at %s), which can overwrite an existing entry instead of appending", funcName(cal), w.InstrPos(call))
+				}
+			}
+		}
+		key := tn + ".GobDecode:one-entry-per-stored-entry"
+		switch {
+		case bad != "":
+			c.bad("C06.count", key, w.FuncPos(dec), "(*"+tn+").GobDecode "+bad+": a list with two values under one language tag (or two untagged values) comes back shorter than it was stored")
+		case found:
+			c.ok("C06.count", key, w.FuncPos(dec), "every decoded pair is appended")
+		default:
+			c.bad("C06.count", key, w.FuncPos(dec), "no append of decoded entries found in the decode loop (undecided)")
+		}
+	}
 }
